@@ -28,6 +28,11 @@ type Run struct {
 	Pads   []Pad              `json:"pads"`
 	// expectation override for this run (metamorphic families)
 	Out *[]int `json:"out"`
+	// Via = "compiled": every template reaches the engine as compiled bytes (parsed and compiled on another engine,
+	// serialised, loaded with LoadFromCompiledData)
+	Via string `json:"via"`
+	// Alt: another output this run may give (then it takes no part in the "same" relation)
+	Alt *[]int `json:"alt"`
 	// per-run engine options
 	Debug  bool   `json:"debug"`
 	Writer string `json:"writer"`
@@ -558,6 +563,36 @@ func renderRun(c *Case, r *Run, ctx map[string]interface{}) (o obs) {
 				e.RegisterTemplate(name, t)
 				continue
 			}
+			if r.Via == "compiled" {
+				if other == nil {
+					other = twig.New()
+					registerSpies(other, st)
+				}
+				err := other.RegisterString(name, src)
+				var t *twig.Template
+				if err == nil {
+					t, err = other.Load(name)
+				}
+				if err != nil {
+					o.kind = "parse"
+					o.errMsg = name + ": " + err.Error()
+					return
+				}
+				var data []byte
+				ct, err := twig.CompileTemplate(t)
+				if err == nil {
+					data, err = twig.SerializeCompiledTemplate(ct)
+				}
+				if err == nil {
+					err = e.LoadFromCompiledData(data)
+				}
+				if err != nil {
+					o.kind = "other"
+					o.errMsg = "compiled route: " + name + ": " + err.Error()
+					return
+				}
+				continue
+			}
 			if err := e.RegisterString(name, src); err != nil {
 				o.kind = "parse"
 				o.errMsg = name + ": " + err.Error()
@@ -957,6 +992,9 @@ func checkCase(c *Case, limit time.Duration) (res Result, hung bool) {
 			if o.counts[k] != v {
 				fail("calls-always", fmt.Sprintf("%s=%d", k, o.counts[k]), fmt.Sprintf("%s=%d", k, v))
 			}
+		}
+		if c.Rel == "same" && r.Alt != nil && o.ok && o.out == textOf(*r.Alt, r.Pads, false) {
+			continue
 		}
 		if c.Rel == "same" {
 			if first == nil {
